@@ -166,6 +166,9 @@ void endRun(const char *reason, int code)
 // ------------------------------------------------------------------------------------------ flags
 static std::set<std::string> g_flags;
 bool flagSet(const std::string &f) { return g_flags.count(f) != 0; }
+static std::map<std::string, std::string> g_vars;
+void setVar(const std::string &k, const std::string &v) { g_vars[k] = v; hist("VAR\t%s\t%s", k.c_str(), v.c_str()); }
+std::string getVar(const std::string &k) { auto i = g_vars.find(k); return i == g_vars.end() ? std::string() : i->second; }
 
 // ------------------------------------------------------------------------------------------ harness registry
 static std::map<std::string, HarnessFn> &harnesses() { static std::map<std::string, HarnessFn> m; return m; }
@@ -814,6 +817,7 @@ uint64_t ioRand(uint64_t lo, uint64_t hi) { return g_ioRng.range(lo, hi); }
 bool ioChance(double p) { return g_ioRng.chance(p); }
 void applyClockJump(int64_t by) { g_wallOffset += by; hist("CLK\tjump\t%lld", (long long)by); probe("fault.clock.jump"); }
 void countEvent() { ++g_events; }
+uint64_t wallUs() { return (uint64_t)((int64_t)g_now + g_wallOffset); }
 }
 
 // sanitizer deaths must not lose the history
